@@ -1100,6 +1100,152 @@ def inline_helpers(repo, rel, stmts):
         return e
     return sub(stmts)
 
+# ------------------------------------------------------------------ unsafe_sync_cell.rs -> gen/CellFns.v (monad of Model/CellM.v)
+CELL_FNS = ['check_zeroed', 'as_mut_ptr', 'new', 'new_zeroed', 'from', 'default', 'inner_ref', 'inner_ref_mut', 'inner_duplicate', 'take_inner', 'clone', 'drop']
+CELL_RET = {'check_zeroed': 'bool', 'as_mut_ptr': 'cptr', 'new': '(list N)', 'new_zeroed': '(list N)', 'from': '(list N)', 'default': '(list N)',
+            'inner_ref': 'cell', 'inner_ref_mut': 'cell', 'inner_duplicate': 'cell', 'take_inner': 'cell', 'clone': '(list N)', 'drop': 'unit'}
+CELL_KIND = {'check_zeroed': 'bool', 'as_mut_ptr': 'ptr', 'new': 'mu', 'new_zeroed': 'mu', 'from': 'mu', 'default': 'mu', 'inner_ref': 'val',
+             'inner_ref_mut': 'val', 'inner_duplicate': 'val', 'take_inner': 'val', 'clone': 'mu', 'drop': 'unit'}
+class CGen:
+    """translation of the functions of unsafe_sync_cell.rs; every value carries its kind:
+       self (the cell), uc (its UnsafeCell), place (the MaybeUninit<T> inside *self), mu (a MaybeUninit<T> / a cell BY VALUE: bytes),
+       ptr, bytes (a byte slice), val (a T or a reference to one), bool, nat, unit"""
+    def __init__(s): s.n = 0; s.env = {}
+    def fresh(s): s.n += 1; return f'v{s.n}'
+    def strip(s, e):
+        while e[0] == 'paren': e = e[1]
+        return e
+    def bind(s, rhs, kind, k):
+        v = s.fresh(); return f'{v} <-- {rhs} ;; ' + k((v, kind))
+    def need(s, a, kind, what):
+        if a[1] != kind: raise TErr(f'{what}: a {kind} expected, got a {a[1]}')
+        return a[0]
+    def pure_byte_test(s, e, x):
+        """the closure of `.all(..)` over one byte"""
+        e = s.strip(e)
+        isx = lambda a: s.strip(a) in (('deref', ('path', [x])), ('path', [x]))
+        isnum = lambda a: s.strip(a)[0] == 'num'
+        if e[0] == 'cmp' and e[1] in ('==', '!='):
+            if isx(e[2]) and isnum(e[3]): t = f'(N.eqb {x} {s.strip(e[3])[1]})'
+            elif isx(e[3]) and isnum(e[2]): t = f'(N.eqb {s.strip(e[2])[1]} {x})'
+            else: raise TErr('byte test')
+            return t if e[1] == '==' else f'(negb {t})'
+        if e[0] == 'not': return f'(negb {s.pure_byte_test(e[1], x)})'
+        raise TErr('byte test ' + e[0])
+    def expr(s, e, k):
+        e = s.strip(e); t = e[0]
+        if t == 'path':
+            p = e[1]
+            if p == ['self']: return k(('self', 'self'))
+            if len(p) == 1 and p[0] in s.env: return k(s.env[p[0]])
+            if p in (['true'], ['false']): return k((p[0], 'bool'))
+            raise TErr('unbound ' + '::'.join(p))
+        if t == 'num': return k((e[1], 'nat'))
+        if t == 'unit': return k(('tt', 'unit'))
+        if t == 'unsafe': return s.stmts(e[1], k) if e[1] else k(('tt', 'unit'))
+        if t == 'not': return s.expr(e[1], lambda a: k((f'(negb {s.need(a, "bool", "!")})', 'bool')))
+        if t == 'field':
+            return s.expr(e[1], lambda a: k(('uc', 'uc')) if (a[1] == 'self' and e[2] == '0') else (_ for _ in ()).throw(TErr('field ' + e[2])))
+        if t in ('deref', 'ref'):
+            def onx(a):
+                if a[1] in ('place', 'bytes'): return k(a)              # *ptr-to-place / &mut place / *slice-ptr
+                raise TErr(f'{t} of a {a[1]}')
+            return s.expr(e[1], onx)
+        if t == 'mcall':
+            name, args = e[2], e[3]
+            def onrecv(r):
+                rk = r[1]
+                if rk == 'uc' and name in ('get', 'get_mut') and not args: return k(('place', 'place'))
+                if rk == 'place' and not args:
+                    if name in ('as_mut_ptr', 'as_ptr'): return s.bind('mu_ptr', 'ptr', k)
+                    if name == 'assume_init_drop': return s.bind('mu_drop R', 'unit', k)
+                    if name == 'assume_init_read': return s.bind('mu_read R', 'val', k)
+                    if name in ('assume_init_ref', 'assume_init_mut'): return s.bind('mu_ref R', 'val', k)
+                if rk == 'mu' and name == 'assume_init' and not args: return s.bind(f'mu_into R {r[0]}', 'val', k)
+                if rk == 'self' and name in CELL_FNS and name not in ('new', 'new_zeroed', 'from', 'default', 'check_zeroed', 'drop', 'clone') and not args:
+                    return s.bind(f'g_{name} R', CELL_KIND[name], k)
+                if rk == 'val' and name == 'clone' and not args: return s.bind(f'clone_val R {r[0]}', 'val', k)
+                if rk == 'bytes' and name == 'iter' and not args: return k(r)
+                if rk == 'bytes' and name in ('all', 'any') and len(args) == 1 and args[0][0] == 'closure' and len(args[0][2]) == 1 and args[0][2][0][0] == 'pvar':
+                    x = args[0][2][0][1]; body = args[0][1]
+                    if len(body) != 1 or body[0][0] != 'tail': raise TErr('closure of all()')
+                    return s.bind(f'{name}_ (fun {cv(x)} => {s.pure_byte_test(body[0][1], cv(x))}) {r[0]}', 'bool', k)
+                raise TErr(f'method {name} on a {rk}')
+            return s.expr(e[1], onrecv)
+        if t == 'call':
+            f = e[1]
+            if f[0] != 'path': raise TErr('call')
+            p = f[1]; last = p[-1]; args = e[2]
+            def withargs(i, acc):
+                if i == len(args): return fin(acc)
+                return s.expr(args[i], lambda a: withargs(i + 1, acc + [a]))
+            def fin(a):
+                own = len(p) == 2 and p[0] in ('Self', 'UnsafeSyncCell')
+                if own and last == 'check_zeroed' and len(a) == 1: return s.bind(f'g_check_zeroed R {s.need(a[0], "ptr", "check_zeroed")}', 'bool', k)
+                if own and last in ('new', 'from') and len(a) == 1: return s.bind(f'g_{last} R {s.need(a[0], "val", last)}', 'mu', k)
+                if own and last in ('new_zeroed', 'default') and not a: return s.bind(f'g_{last} R', 'mu', k)
+                if p == ['Self'] and len(a) == 1: return k((s.need(a[0], 'mu', 'Self(..)'), 'mu'))
+                if p[-2:] == ['UnsafeCell', 'new'] and len(a) == 1: return k((s.need(a[0], 'mu', 'UnsafeCell::new'), 'mu'))
+                if p[-2:] == ['MaybeUninit', 'zeroed'] and not a: return s.bind('mu_zeroed R', 'mu', k)
+                if p[-2:] == ['MaybeUninit', 'new'] and len(a) == 1: return s.bind(f'mu_new R {s.need(a[0], "val", "MaybeUninit::new")}', 'mu', k)
+                if last == 'default' and p[0] in ('Default', 'T') and not a: return s.bind('default_val R', 'val', k)
+                if last == 'replace' and len(a) == 2 and a[0][1] == 'place': return s.bind(f'mu_replace {s.need(a[1], "mu", "mem::replace")}', 'mu', k)
+                if last == 'slice_from_raw_parts' and len(a) == 2: return s.bind(f'bytes_at {s.need(a[0], "ptr", "slice_from_raw_parts")} {s.need(a[1], "nat", "slice_from_raw_parts")}', 'bytes', k)
+                if last == 'size_of' and not a: return k(('(size_of R)', 'nat'))
+                raise TErr('call ' + '::'.join(p))
+            return withargs(0, [])
+        if t == 'if':
+            def withc(c):
+                cc = s.need(c, 'bool', 'if')
+                kinds = []
+                def arm(b):
+                    if not b: kinds.append('unit'); return 'cret tt'
+                    return s.stmts(b, lambda a: (kinds.append(a[1]), f'cret {a[0]}')[1])
+                a = arm(e[2]); b = arm(e[3] if e[3] is not None else [])
+                if kinds[0] != kinds[1]: raise TErr('if: arms of different kinds')
+                return s.bind(f'(if {cc} then ({a}) else ({b}))', kinds[0], k)
+            return s.expr(e[1], withc)
+        raise TErr('expression ' + t)
+    def stmts(s, stmts, k):
+        st, rest = stmts[0], stmts[1:]
+        t = st[0]
+        if t == 'let' and st[1][0] == 'pvar':
+            def withv(a):
+                s.env[st[1][1]] = a
+                return s.stmts(rest, k) if rest else k(('tt', 'unit'))
+            return s.expr(st[2], withv)
+        if t in ('expr', 'tail'):
+            if rest: return s.expr(st[1], lambda a: s.stmts(rest, k))
+            return s.expr(st[1], (lambda a: k(('tt', 'unit'))) if t == 'expr' else k)
+        raise TErr('statement ' + t)
+
+def cell_fns(repo):
+    out = []; problems = []
+    try:
+        txt = strip_comments(open(os.path.join(repo, 'src', 'ring_buffer/wrappers/unsafe_sync_cell.rs')).read())
+        names = re.findall(r'\bfn\s+(\w+)', txt)
+        if sorted(names) != sorted(CELL_FNS):
+            problems.append('unsafe_sync_cell.rs: functions ' + ', '.join(sorted(set(names) ^ set(CELL_FNS))) + ' are outside the translated set')
+        flat = re.sub(r'\s+', '', txt)
+        if '#[repr(transparent)]pubstructUnsafeSyncCell<T>(UnsafeCell<MaybeUninit<T>>);' not in flat:
+            problems.append('unsafe_sync_cell.rs: UnsafeSyncCell<T> is not a #[repr(transparent)] wrapper of UnsafeCell<MaybeUninit<T>>')
+        for n in CELL_FNS:
+            it = P(lex(find_fn(txt, n))).fn_item()
+            g = CGen(); ps = []
+            for pn, pk in it[2]:
+                kind = {'loc': 'ptr', 'val': 'val'}.get(pk if isinstance(pk, str) else 'other')
+                if kind is None: raise TErr(f'{n}: parameter {pn}')
+                g.env[pn] = (cv(pn), kind); ps.append(f'({cv(pn)} : {"cptr" if kind == "ptr" else "cell"})')
+            want = CELL_KIND[n]
+            def fin(a, n=n, want=want):
+                if a[1] != want: raise TErr(f'{n}: answers a {a[1]}, expected a {want}')
+                return f'cret {a[0]}'
+            body = g.stmts(it[4], fin) if it[4] else fin(('tt', 'unit'))
+            out.append(f'Definition g_{n} (R : repr) {" ".join(ps)}{" " if ps else ""}: CM {CELL_RET[n]} :=\n  {body}.')
+    except (TErr, ValueError, IndexError, KeyError, OSError) as ex:
+        problems.append(f'unsafe_sync_cell.rs outside the translatable subset: {ex}')
+    return out, problems
+
 def main(repo, outdir):
     defs, problems = translate(repo)
     lines = ['(* GENERATED by tools/data_translate.py from /repo/src on every run - do not edit *)',
@@ -1123,6 +1269,13 @@ def main(repo, outdir):
           f'Definition life_clean : bool := {"true" if not lfp else "false"}.'] + [f'(* PROBLEM: {x} *)' for x in lfp]
     open(os.path.join(outdir, 'LifeFns.v'), 'w').write('\n'.join(ll) + '\n')
     problems = problems + lfp
+    cf, cfp = cell_fns(repo)
+    if cfp: cf = []
+    cl = ['(* GENERATED by tools/data_translate.py from /repo/src/ring_buffer/wrappers/unsafe_sync_cell.rs on every run - do not edit *)',
+          'From Coq Require Import List NArith Bool.', 'Import ListNotations.', 'Require Import MRB.Model.Types MRB.Model.CellM.', 'Open Scope cm_scope.', ''] + cf + [
+          f'Definition cell_clean : bool := {"true" if not cfp else "false"}.'] + [f'(* PROBLEM: {x} *)' for x in cfp]
+    open(os.path.join(outdir, 'CellFns.v'), 'w').write('\n'.join(cl) + '\n')
+    problems = problems + cfp
     sh, shp = poll_shape(repo)
     at, atp = async_table(repo)
     b = lambda x: 'true' if x else 'false'
